@@ -414,10 +414,22 @@ class SparseColumn(FlatColumn):
         """
         Materialize the sparse column into a full numpy array.
         """
+        values = numpy.asarray(self.values)
+        default = numpy.asarray(self.default_value)
+        # The result has to hold the default and the stored values without truncating
+        # or converting either: numbers promote among themselves (int -> float), text
+        # takes the wider width, anything else (a null default, text against numbers)
+        # is held as objects. Taking the dtype from the default alone narrowed the
+        # values (floats to ints, text to the width of the default).
+        kinds = {values.dtype.kind, default.dtype.kind}
+        if kinds <= set("biufc") or (len(kinds) == 1 and "O" not in kinds):
+            dtype = numpy.promote_types(values.dtype, default.dtype)
+        else:
+            dtype = numpy.dtype(object)
         materialized = numpy.full(
-            self.total_length, self.default_value
+            self.total_length, self.default_value, dtype=dtype
         )  # Initialize with default values
-        materialized[self.indices] = self.values
+        materialized[self.indices] = values
         return materialized
 
 
